@@ -444,6 +444,26 @@ def withFeats (feats : List String) (rules : List String) : List String :=
   let fs := ",".intercalate (feats.mergeSort strLe)
   (dedup rules).map fun r => if fs = "" then r else r ++ ":" ++ fs
 
+/-- shape of a contour of the description: which kind, and how the start point the writer chose cuts the cyclic list
+    (`lead` / `trail` = off-curve points at the start / end of the written list; a closed contour wraps around) -/
+def contourTag (c : PV) : List String :=
+  let tys := (listOf c "points").map fun p => (strOf p "type").getD "?"
+  if tys.isEmpty then [] else
+  if tys.head? == some "move" then ["ct-open"] else
+  let lead := (tys.takeWhile (· == "offcurve")).length
+  let trail := (tys.reverse.takeWhile (· == "offcurve")).length
+  if tys.all (· == "offcurve") then ["ct-all-offcurve"]
+  else if tys.contains "qcurve" then
+    let wrap := lead + trail
+    [if lead > 0 && trail > 0 then "ct-quad-seam-split" else if trail > 0 then "ct-quad-starts-on-curve" else
+       if lead > 0 then "ct-quad-on-curve-last" else "ct-quad-no-wrap"] ++
+    (if wrap ≥ 3 then ["ct-quad-wrap-run3+"] else [])
+  else if tys.contains "curve" then ["ct-cubic-seam" ++ toString (min (lead + trail) 3)]
+  else ["ct-lines"]
+
+def contourTags (desc : PV) : List String :=
+  (listOf desc "layers").flatMap fun l => (listOf l "glyphs").flatMap fun g => (listOf g "contours").flatMap contourTag
+
 def sizeTags (desc : PV) : List String :=
   let ls := listOf desc "layers"
   let ng := (ls.map fun l => (listOf l "glyphs").length).foldl (· + ·) 0
@@ -488,11 +508,12 @@ def runN (inp obs : List String) : Verdict :=
         | some dump =>
           let fails := checkI2N desc dump
           { agree := !expectReject && (fails.isEmpty == !expectAltered), spec := withFeats feats fails,
-            tags := ["i2n", if fails.isEmpty then "equal" else "differs"] ++ feats ++ sizeTags desc, model := modelS }
+            tags := ["i2n", if fails.isEmpty then "equal" else "differs"] ++ feats ++ sizeTags desc ++ contourTags desc,
+            model := modelS }
         | none => { agree := false, model := "unparsable-dump" }
       | [e] =>
         { agree := expectReject && e != "panic", spec := withFeats feats [if e = "panic" then "i2n-panic" else "i2n-rejected"],
-          tags := ["i2n", "rejected"] ++ feats ++ sizeTags desc, model := modelS }
+          tags := ["i2n", "rejected"] ++ feats ++ sizeTags desc ++ contourTags desc, model := modelS }
       | _ => { agree := false, model := "bad-i2n-observation" }
     | _, _ => { agree := false, model := "bad-i2n-line" }
   | [_, "les", src, _seed, descTok, opsTok] =>
